@@ -307,6 +307,125 @@ fn degree_expr(tier: &str) {
         samples.join(","), viol.join(","));
 }
 
+// ---------------------------------------------------------------------------------------------
+// dom: DominatorTree::new on every rooted digraph up to a node bound, against the path definitions (C15)
+use program_structure::ssa::dominator_tree::DominatorTree;
+use program_structure::ssa::traits::DirectedGraphNode;
+use std::collections::HashSet;
+
+struct Node { idx: usize, preds: HashSet<usize>, succs: HashSet<usize> }
+impl DirectedGraphNode for Node {
+    fn index(&self) -> usize { self.idx }
+    fn predecessors(&self) -> &HashSet<usize> { &self.preds }
+    fn successors(&self) -> &HashSet<usize> { &self.succs }
+}
+
+/// nodes reachable from 0 without passing through `avoid`
+fn reach(n: usize, adj: &Vec<Vec<bool>>, avoid: Option<usize>) -> Vec<bool> {
+    let mut seen = vec![false; n];
+    if avoid == Some(0) { return seen; }
+    let mut stack = vec![0usize];
+    seen[0] = true;
+    while let Some(u) = stack.pop() {
+        for v in 0..n { if adj[u][v] && !seen[v] && Some(v) != avoid { seen[v] = true; stack.push(v); } }
+    }
+    seen
+}
+
+fn check_graph(n: usize, adj: &Vec<Vec<bool>>) -> Option<(String, String)> {
+    // oracle: d dom i  <=>  d == i or i is unreachable once d is removed
+    let mut dom = vec![vec![false; n]; n]; // dom[d][i]
+    for d in 0..n { let r = reach(n, adj, Some(d)); for i in 0..n { dom[d][i] = d == i || !r[i]; } }
+    let nodes: Vec<Node> = (0..n).map(|i| Node { idx: i, preds: (0..n).filter(|&q| adj[q][i]).collect(), succs: (0..n).filter(|&s| adj[i][s]).collect() }).collect();
+    let tree = match catch_unwind(AssertUnwindSafe(|| DominatorTree::new(&nodes))) { Ok(t) => t, Err(_) => return Some(("dom|DominatorTree::new|safety|0".into(), "DominatorTree::new panicked".into())) };
+    for i in 0..n {
+        let want: HashSet<usize> = (0..n).filter(|&d| dom[d][i]).collect();
+        let got = tree.get_dominators(i);
+        if got != want { return Some(("dom|compute_dominators|ensures|0".into(), format!("dominators({}) = {:?}, path definition gives {:?}", i, sorted(&got), sorted(&want)))); }
+        // immediate dominator: the strict dominator j of i that every strict dominator of i dominates
+        let sd: Vec<usize> = (0..n).filter(|&d| d != i && dom[d][i]).collect();
+        let want_idom = sd.iter().copied().find(|&j| sd.iter().all(|&k| dom[k][j]));
+        let got_idom = tree.get_immediate_dominator(i);
+        if got_idom != want_idom { return Some(("dom|compute_immediate_dominators|ensures|0".into(), format!("idom({}) = {:?}, definition gives {:?}", i, got_idom, want_idom))); }
+    }
+    for j in 0..n {
+        let want: HashSet<usize> = (0..n).filter(|&i| tree.get_immediate_dominator(i) == Some(j)).collect();
+        let got = tree.get_dominator_successors(j);
+        if got != want { return Some(("dom|compute_immediate_dominators|ensures|1".into(), format!("dominator-tree children({}) = {:?}, inverse of idom gives {:?}", j, sorted(&got), sorted(&want)))); }
+        // frontier of j: nodes x such that j dominates a predecessor of x but does not strictly dominate x
+        let want: HashSet<usize> = (0..n).filter(|&x| (0..n).any(|q| adj[q][x] && dom[j][q]) && !(j != x && dom[j][x])).collect();
+        let got = tree.get_dominance_frontier(j);
+        if got != want { return Some(("dom|compute_dominance_frontier|ensures|0".into(), format!("frontier({}) = {:?}, definition gives {:?}", j, sorted(&got), sorted(&want)))); }
+    }
+    None
+}
+fn sorted(s: &HashSet<usize>) -> Vec<usize> { let mut v: Vec<usize> = s.iter().copied().collect(); v.sort(); v }
+fn edges(n: usize, adj: &Vec<Vec<bool>>) -> String { let mut v = vec![]; for a in 0..n { for b in 0..n { if adj[a][b] { v.push(format!("{}->{}", a, b)); } } } v.join(" ") }
+
+static CURRENT_GRAPH: std::sync::Mutex<String> = std::sync::Mutex::new(String::new());
+
+/// runs dom_bounded_inner under a watchdog: a graph on which DominatorTree::new never returns is a (termination) violation
+fn dom_bounded(tier: &str, seed: u64) {
+    let limit = if tier == "thorough" { 1500 } else { 60 };
+    let (tx, rx) = std::sync::mpsc::channel();
+    let t = tier.to_string();
+    std::thread::spawn(move || { dom_bounded_inner(&t, seed); let _ = tx.send(()); });
+    if rx.recv_timeout(std::time::Duration::from_secs(limit)).is_err() {
+        let gdesc = CURRENT_GRAPH.lock().map(|g| g.clone()).unwrap_or_default();
+        println!("{{\"unit\":\"dom\",\"evaluations\":1,\"distinct_nontrivial\":1,\"exhaustive\":false,\"rule\":\"watchdog\",\"bound\":\"aborted\",\"samples\":[],\"violations\":[{{\"unit\":\"dom\",\"fn\":\"DominatorTree::new\",\"obligation\":\"dom|DominatorTree::new|safety|0\",\"input\":{{\"graph\":{}}},\"what\":{},\"replay\":\"-\"}}]}}",
+            jstr(&gdesc), jstr(&format!("DominatorTree::new did not return within {} s (non-termination) on graph [{}]", limit, gdesc)));
+        std::process::exit(0);
+    }
+}
+
+fn dom_bounded_inner(tier: &str, seed: u64) {
+    let maxn = if tier == "thorough" { 5 } else { 4 };
+    let mut evals = 0u64; let mut nontrivial = 0u64;
+    let mut viol: Vec<String> = vec![]; let mut seen_ob: std::collections::BTreeSet<String> = Default::default();
+    let mut samples: Vec<String> = vec![];
+    let mut run = |n: usize, adj: &Vec<Vec<bool>>, evals: &mut u64, nontrivial: &mut u64| {
+        let r = reach(n, adj, None);
+        if !r.iter().all(|&b| b) { return; }
+        *evals += 1;
+        if let Ok(mut g) = CURRENT_GRAPH.lock() { *g = format!("n={} {}", n, edges(n, adj)); }
+        // non-trivial: the graph has a join node (>= 2 predecessors) or a cycle
+        if (0..n).any(|i| (0..n).filter(|&q| adj[q][i]).count() >= 2) { *nontrivial += 1; }
+        if *evals % 509 == 1 && samples.len() < 8 { samples.push(format!("{{\"n\":{},\"edges\":{}}}", n, jstr(&edges(n, adj)))); }
+        if let Some((ob, what)) = check_graph(n, adj) {
+            if seen_ob.insert(ob.clone()) {
+                viol.push(format!("{{\"unit\":\"dom\",\"fn\":{},\"obligation\":{},\"input\":{{\"n\":{},\"edges\":{}}},\"what\":{},\"replay\":{}}}",
+                    jstr(ob.split('|').nth(1).unwrap_or("")), jstr(&ob), n, jstr(&edges(n, adj)), jstr(&format!("graph [{}] on {} nodes: {}", edges(n, adj), n, what)), jstr(&format!("replay_ps replay-dom {} {}", n, edges(n, adj).replace(' ', ",")))));
+            }
+        }
+    };
+    for n in 1..=maxn {
+        let bits = n * (n - 1); // no edge into node 0; self loops allowed elsewhere
+        for m in 0u64..(1u64 << bits) {
+            let mut adj = vec![vec![false; n]; n];
+            let mut k = 0;
+            for a in 0..n { for b in 1..n { if (m >> k) & 1 == 1 { adj[a][b] = true; } k += 1; } }
+            run(n, &adj, &mut evals, &mut nontrivial);
+        }
+    }
+    // seeded random larger graphs (reducible and irreducible)
+    let mut x = 0x9E3779B97F4A7C15u64 ^ seed.wrapping_mul(0xD1B54A32D192ED03) | 1;
+    let nrand = if tier == "thorough" { 20000 } else { 1500 };
+    for _ in 0..nrand {
+        x ^= x << 13; x ^= x >> 7; x ^= x << 17;
+        let n = 6 + (x % 7) as usize;
+        let mut adj = vec![vec![false; n]; n];
+        for b in 1..n { x ^= x << 13; x ^= x >> 7; x ^= x << 17; adj[(x % b as u64) as usize][b] = true; } // spanning tree: all reachable
+        let extra = n + (x % (2 * n as u64)) as usize;
+        for _ in 0..extra { x ^= x << 13; x ^= x >> 7; x ^= x << 17; let a = (x % n as u64) as usize; let b = 1 + ((x >> 20) % (n as u64 - 1)) as usize; adj[a][b] = true; }
+        run(n, &adj, &mut evals, &mut nontrivial);
+    }
+    println!("{{\"unit\":\"dom\",\"evaluations\":{},\"distinct_nontrivial\":{},\"exhaustive\":true,\"rule\":{},\"bound\":{},\"samples\":[{}],\"violations\":[{}]}}",
+        evals, nontrivial,
+        jstr("DominatorTree::new (real compiled code, generic over a test node type) vs the path definitions (dominator = unreachable when removed; idom = closest strict dominator; children invert idom; frontier by definition); non-trivial = has a join node; exhaustively enumerated graphs are pairwise distinct"),
+        jstr(&format!("all rooted digraphs with <= {} nodes (every node reachable, no edge into the entry, self loops allowed) exhaustively, plus {} seeded random graphs with 6..12 nodes", maxn, nrand)),
+        samples.join(","), viol.join(","));
+}
+
 fn main() {
     std::panic::set_hook(Box::new(|_| {}));
     let args: Vec<String> = std::env::args().collect();
@@ -316,6 +435,13 @@ fn main() {
         (Some("bounded"), Some("valueops")) => valueops(tier, seed),
         (Some("bounded"), Some("degree")) => degree(tier),
         (Some("bounded"), Some("degree_expr")) => degree_expr(tier),
+        (Some("bounded"), Some("dom")) => dom_bounded(tier, seed),
+        (Some("replay-dom"), Some(nn)) => {
+            let n: usize = nn.parse().unwrap();
+            let mut adj = vec![vec![false; n]; n];
+            for e in args.get(3).map(|s| s.as_str()).unwrap_or("").split(',').filter(|e| !e.is_empty()) { let mut it = e.split("->"); let a: usize = it.next().unwrap().parse().unwrap(); let b: usize = it.next().unwrap().parse().unwrap(); adj[a][b] = true; }
+            match check_graph(n, &adj) { Some((ob, what)) => { println!("VIOLATES {}: {}", ob, what); std::process::exit(1) } None => println!("agrees with the path definitions") }
+        }
         (Some("replay-infix"), Some(f)) => {
             let a = BigInt::parse_bytes(args[3].as_bytes(), 10).unwrap();
             let b = BigInt::parse_bytes(args[4].as_bytes(), 10).unwrap();
